@@ -616,7 +616,11 @@ func genNest(r *rand.Rand, id string, tier string) string {
 		case 0:
 			ops = append(ops, fmt.Sprintf("nnest %d", r.Intn(2)))
 		case 1:
-			ops = append(ops, "pop")
+			if r.Intn(2) == 0 {
+				ops = append(ops, fmt.Sprintf("rem %d", r.Intn(4))) // taking one element out leaves the others (nested Stacks included) where they are
+			} else {
+				ops = append(ops, "pop")
+			}
 		case 6:
 			switch r.Intn(4) {
 			case 0:
